@@ -452,9 +452,40 @@ impl<'a> Model for FetchModel<'a> {
     }
 
     fn on_new_state(&self, sim: &mut Sim, _hist: &[Ev]) -> Vec<(String, String)> {
+        match crate::verif::props::panics::catch(|| self.continuation(sim)) {
+            Ok(bad) => bad,
+            Err(p) => {
+                self.track.borrow_mut().pending.clear();
+                // the client followed a (silently switched) peer onto a branch and is now more than
+                // last-N blocks beyond the fork point, while the continuation's peers are on the
+                // other branch: the documented long-fork abort, not a lost fetch
+                let (_, tip) = sim.c().storage.get_last_state();
+                let n: u64 = tip.raw().number().unpack();
+                if p.msg.contains("long fork detected") && n > FORK_AT + 3 {
+                    return vec![("~not-judged/documented-long-fork".into(), String::new())];
+                }
+                vec![(format!("abort-in-continuation/{}", p.site()), p.describe())]
+            }
+        }
+    }
+}
+
+impl<'a> FetchModel<'a> {
+    fn continuation(&self, sim: &mut Sim) -> Vec<(String, String)> {
         // honest continuation: both peers honest on one chain (the fork if it was announced, the
         // main chain otherwise), everything in flight delivered, timers running, calls repeated
-        let forked = self.track.borrow().forked;
+        let mut forked = self.track.borrow().forked;
+        // a stored tip more than last-N blocks beyond the fork point binds the continuation to its
+        // branch: the way back to the other branch is the documented long-fork abort (a peer that
+        // switched silently to the heavier fork and was proven again gets the client there
+        // without any announcement the model tracks)
+        {
+            let (_, tip) = sim.c().storage.get_last_state();
+            let n: u64 = tip.raw().number().unpack();
+            if n > FORK_AT + 3 {
+                forked = self.fork.number_of(&tip.calc_header_hash()).is_some() && self.main.number_of(&tip.calc_header_hash()).is_none();
+            }
+        }
         // (one block beyond what the client has seen: a peer that reconnects at the stored tip's
         // height cannot be proven again before the chain grows)
         // ... and strictly heavier than any branch a peer has shown (a silent switch shows fork@15):
